@@ -38,7 +38,7 @@ BUDGET = {"quick": 1500, "thorough": 60000}
 
 
 def leg(part, tier, shard, nshards):
-    P.run_pool_leg(part, PROP, harnesses(tier), BUDGET[tier], global_budget={"quick": 250000, "thorough": 2500000}[tier])
+    P.run_pool_leg(part, PROP, harnesses(tier), BUDGET[tier], global_budget={"quick": 250000, "thorough": 1500000}[tier])
 
 
 LEGS = {"schedules": leg}
